@@ -73,4 +73,17 @@ restriction on definitions). -/
 def Table.KeysUnique {τ : Type} (M : Table σ α γ τ) : Prop :=
   (akeys M.trans).Nodup ∧ ∀ kv ∈ M.trans, (akeys kv.2).Nodup
 
+/-- Everything `PDA.validate` asks of a definition apart from determinism: the input
+symbols labelling transitions are declared (or are the empty string), the stack symbols
+keying transitions are declared, the initial state, initial stack symbol and final states
+are declared, and the acceptance mode is one of the three literals.  (The code checks
+neither target states, nor pushed symbols, nor that rows are keyed by states.) -/
+structure Table.WellFormed {τ : Type} (M : Table σ α γ τ) : Prop where
+  inputOk : ∀ kv ∈ M.trans, ∀ e ∈ kv.2, ∀ a, e.1 = some a → a ∈ M.inputSyms
+  stackOk : ∀ kv ∈ M.trans, ∀ e ∈ kv.2, ∀ X ∈ akeys e.2, X ∈ M.stackSyms
+  initOk : M.init ∈ M.states
+  initStackOk : M.initStack ∈ M.stackSyms
+  finalsOk : ∀ q ∈ M.finals, q ∈ M.states
+  modeOk : ∃ m : AccMode, M.mode = m.literal
+
 end AV.PDA
